@@ -230,8 +230,9 @@ def gen_dump(rng, table, strings):
     r = rng.random()
     if r < 0.15:
         ilog += rng.choice(im.BUFFER_NAMES).encode() + b"\0\0\0\0"              # a name without the header start
-    elif r < 0.25:
-        ilog += im.HDR_START + b"NOPE" + b"\0" * 4                              # header start without a valid name
+    elif r < 0.32:
+        # header start followed by four letters that are NOT one of the six buffer names (other components' names): data
+        ilog += im.HDR_START + rng.choice(OTHER_NAMES).encode() + b"\0" * 4
     if rng.random() < 0.25:
         # bytes that read as text: control / Latin-1 characters each followed by hex digits (a dump tool that prints its
         # character column raw puts them into the text file as they are)
@@ -253,6 +254,9 @@ def gen_dump(rng, table, strings):
     return ilog + bufs
 
 
+OTHER_NAMES = ["NOPE", "THRM", "TEMP", "VOLT", "PWRS", "FANC", "SENS", "LEDS", "I2CM", "I2CS", "VPDS", "CONF", "BOOT", "MAIN", "DIAG", "TRAC",
+               "DBUG", "HLOG", "ILOG", "CORE", "INIT", "UART", "GPIO", "FPGA", "VRMS", "PSUS", "BPLN", "MEXS", "NIMZ", "DRWR", "CECS", "SPCN",
+               "IICX", "POWS", "FAN0", "ERRS", "INFo", "fans", "Iics", "BMCS", "HOST", "PCIE", "CXPS", "CABL", "SLOT", "EEPR", "SMBS", "ADCS"]
 ODD_SEPARATORS = ["\x0b", "\x0c", "\x1c", "\x1d", "\x1e", "\x85", "\u2028", "\u2029"]
 
 
@@ -282,9 +286,13 @@ def view_of(rng, d: bytes):
             pre += im.HDR_START + b"FANS" + bytes(24)
             post = im.HDR_START + b"POWR" + bytes(24) + post
         buf = pre + d + post
+        if rng.random() < 0.4:
+            buf = bytearray(buf)              # a writable buffer (what hexdump.parse() returns for a dump file)
         return memoryview(buf)[len(pre):len(pre) + len(d)]
-    if r < 0.7:
+    if r < 0.6:
         return memoryview(d)
+    if r < 0.8:
+        return memoryview(bytearray(d))       # writable view: its slices cannot be hashed
     return d
 
 
